@@ -192,8 +192,9 @@ package dataflow
 //@   ensures copy: istype(callCommon.Value, *ssa.Builtin) && callCommon.Value.Name() == "copy" && len(callCommon.Args) == 2 ==> xfer(t, instruction, callCommon.Args[1], callCommon.Args[0])
 
 //@ func NewBaseRationale
-//@   property C14
+//@   property C14 C15
 //@   ensures result != nil
+//@   modifies nothing
 
 // ---------------------------------------------------------------------------
 // C17 / C07: both directions of an edge are recorded.
